@@ -191,10 +191,15 @@ def run_history(case):
                 # read-only adjacency / antipode queries must leave every node attribute untouched
                 poly.get_polytope_adj_matrix()
                 poly.get_neighbours_of(0)
+                nn = poly.G.number_of_nodes()
+                if nn <= 170:            # reduced graph of the first points (plotting helper; quadratic in the node count)
+                    poly.get_N_element_graph(poly.get_nodes(N=max(1, (2 * nn) // 3), projection=True))
+                poly.get_cdist_matrix()
                 if kind == "cube4D":
                     from molgri.space.polytopes import find_opposing_q
                     for node in list(poly.G.nodes)[:3]:
                         find_opposing_q(node, poly.G)
+                    poly.get_all_cells()
                 v, cur = check_state(poly, kind, ndiv, record, pre + "|after_queries", case)
                 vs.extend(v)
                 vs.extend(check_getters(poly, kind, cur, pre + "|after_queries", case))
